@@ -42,6 +42,8 @@ func fmtVal(v object.PanObject) string {
 	return "o:" + string(v.Type())
 }
 
+func init() { register("intop", cmdIntop) }
+
 func cmdIntop() {
 	ctn := evaluator.NewPropContainer()
 	ip := props.IntProps(ctn)
